@@ -17,6 +17,24 @@
 (*   ratchetFee, the opener's max-fee abort, the taproot accept-first-offer *)
 (*   rule, and the final CompleteCooperativeClose of part I.                *)
 (*                                                                          *)
+(* Part III - RBF rounds (closing_complete / closing_sig) between ONE real   *)
+(*   node and an ARBITRARY HONEST BOLT-2 PEER (rbf_coop_transitions.go,     *)
+(*   variable rb).  In parts I/II and in RbfOffer both sides are lnd, so    *)
+(*   every field the closer is free to choose only ever takes the values    *)
+(*   lnd's own closer produces.  Here the peer is a model-driven closer     *)
+(*   (PeerOffer: any lock time <= the current height, any fee up to its     *)
+(*   funds incl. +1 sat RBF bumps and drops, the signature field its dust   *)
+(*   rule prescribes, a new delivery script with any offer, a second        *)
+(*   closing_complete before the first closing_sig) and a model-driven      *)
+(*   closee (PeerReply) for the node's own offers (NodeOffer); its messages *)
+(*   reach the node in the order sent (rb.inq).  NodeReply / NodeOffer /    *)
+(*   NodeSig transcribe ClosingNegotiation + RemoteCloseStart /             *)
+(*   LocalCloseStart / LocalOfferSent; Desc is the closing transaction a    *)
+(*   closing_complete DESCRIBES, written from the property (Due, OwnDust),  *)
+(*   not from the code.  Judged: the node counter-signs exactly the         *)
+(*   described transaction (lock time included), refuses only in the named  *)
+(*   cases (NamedRefusals), TxInvariants on both sides.                     *)
+(*                                                                          *)
 (* Amounts: balances in millisatoshi (the commitment's unit), everything    *)
 (* else in satoshi.  Capacity is scaled to 1 000 000 sat so that msat fit   *)
 (* TLC's 32-bit integers.  Signatures are abstract: "p signed fee f" is     *)
@@ -47,11 +65,13 @@ VARIABLES
   msg,     \* closing_signed in flight (fee; 0 = none) to `turn`
   turn,
   rounds,  \* messages processed so far
-  err      \* "" or the reason a closer returned an error
+  err,     \* "" or the reason a closer returned an error
+  \* --- part III ---
+  rb       \* the RBF session of one real node with a model-driven peer (see RbIdle)
 
 chanVars == <<ch, tx>>
-negVars  == <<ideal, maxfee, last, prior, done, msg, turn, rounds, err>>
-vars     == <<ch, tx, ideal, maxfee, last, prior, done, msg, turn, rounds, err>>
+negVars  == <<ideal, maxfee, last, prior, done, msg, turn, rounds, err, rb>>
+vars     == <<ch, tx, ideal, maxfee, last, prior, done, msg, turn, rounds, err, rb>>
 
 \* a channel both parties agree about: balances in msat, dust limits and commit fee in sat
 MkChan(opener, anchors, taproot, dustA, dustB, balA, balB, cfee) ==
@@ -69,9 +89,15 @@ MidChan(o, tap) ==
   MkChan(o, TRUE, tap, 354, 354, IF o = "A" THEN ob ELSE nb, IF o = "A" THEN nb ELSE ob, 6744)
 Max(a, b) == IF a > b THEN a ELSE b
 
+\* part III idle (the session record is described at "Part III" below)
+NoMsg  == [kind |-> "", fee |-> 0, lt |-> 0, cs |-> 0, es |-> 0, F |-> {}]
+RbIdle == [on |-> FALSE, node |-> "A", envh |-> 0, ht |-> 0, sd |-> [p \in P |-> <<0, 0, 0>>],
+           inq |-> <<>>, own |-> NoMsg, answered |-> FALSE, dead |-> FALSE, stuck |-> FALSE,
+           what |-> "", res |-> "", sel |-> "", csf |-> "", ans |-> NoMsg]
+
 NegIdle == /\ ideal = [p \in P |-> 0] /\ maxfee = [p \in P |-> 0] /\ last = [p \in P |-> 0]
            /\ prior = [p \in P |-> {}] /\ done = [p \in P |-> 0]
-           /\ msg = 0 /\ turn = "A" /\ rounds = 0 /\ err = ""
+           /\ msg = 0 /\ turn = "A" /\ rounds = 0 /\ err = "" /\ rb = RbIdle
 
 -----------------------------------------------------------------------------
 (* Part I: transcription *)
@@ -93,7 +119,7 @@ CoopCloseBalance(isInitiator, fee, ourBalance, theirBalance, commitFee, payerIsL
 CloseTxOutputs(localDust, remoteDust, ourBalance, theirBalance) ==
   [hasLocal |-> ourBalance >= localDust, hasRemote |-> theirBalance >= remoteDust]
 
-NoTx == [res |-> "none", has |-> [q \in P |-> FALSE], val |-> [q \in P |-> 0], fee |-> 0, payer |-> "A"]
+NoTx == [res |-> "none", has |-> [q \in P |-> FALSE], val |-> [q \in P |-> 0], fee |-> 0, payer |-> "A", lt |-> 0]
 Refusal(why, fee, payer) == [NoTx EXCEPT !.res = why, !.fee = fee, !.payer = payer]
 
 \* CreateCloseProposal / CompleteCooperativeClose as executed by party p for `fee`, charged to `payer`
@@ -108,7 +134,7 @@ BuildTx(p, fee, payer) ==
              ELSE [res |-> "ok",
                    has |-> (p :> t.hasLocal @@ q :> t.hasRemote),
                    val |-> (p :> (IF t.hasLocal THEN b.our ELSE 0) @@ q :> (IF t.hasRemote THEN b.their ELSE 0)),
-                   fee |-> fee, payer |-> payer]
+                   fee |-> fee, payer |-> payer, lt |-> 0]     \* lock time 0 unless WithCustomLockTime
 
 \* Both parties build, sign and complete the close for the same fee (API level: the grid of part I).
 \* payer = opener is the legacy flow; payer # opener is WithCustomPayer (the RBF-coop flow, closer pays).
@@ -186,7 +212,7 @@ Begin ==
             /\ msg' = ideal[o] /\ turn' = Other(o)
             /\ UNCHANGED <<done, tx, err>>
        ELSE Fail("sign")
-  /\ UNCHANGED <<ch, ideal, maxfee, rounds>>
+  /\ UNCHANGED <<ch, ideal, maxfee, rounds, rb>>
 
 \* ReceiveClosingSigned(msg) by p = turn
 Receive ==
@@ -216,7 +242,7 @@ Receive ==
                     ELSE Finish(p, f)                               \* we accept their fee
                /\ UNCHANGED err
   /\ rounds' = rounds + 1
-  /\ UNCHANGED <<ch, ideal, maxfee>>
+  /\ UNCHANGED <<ch, ideal, maxfee, rb>>
 
 -----------------------------------------------------------------------------
 (* The property, written from its statement (party-independent).            *)
@@ -255,11 +281,211 @@ RefusalCases == \A p \in Built :
                   ELSE /\ tx[p].res = "unaffordable" <=> Due(y, f, y) < 0
                        /\ tx[p].res = "nooutputs" <=> (Due(y, f, y) >= 0 /\ \A q \in P : Due(q, f, y) < OwnDust(q))
 \* both closers hold the same close terms: every transaction of every round pays the CURRENT scripts
-TermsAgree == \A m \in P : \A p \in P : ch.scr[m][p] = ch.scr[p][p]
+\* (with a model-driven peer: whenever no closing_complete is in flight and the node's machine is alive)
+TermsAgree == (rb.inq = <<>> /\ ~rb.dead) => \A m \in P : \A p \in P : ch.scr[m][p] = ch.scr[p][p]
 \* both sides build (and therefore sign) the same transaction
 SameTx == (Built = P /\ tx["A"].fee = tx["B"].fee /\ tx["A"].payer = tx["B"].payer) => tx["A"] = tx["B"]
 
 TxInvariants == Synced => (ExactBalance /\ DustOmitted /\ Conservation /\ RefusalCases /\ SameTx)
+
+-----------------------------------------------------------------------------
+(* Part III: one real node against an arbitrary honest BOLT-2 peer           *)
+(*                                                                           *)
+(* rb.node is the party played by the real state machine (ClosingNegotiation *)
+(* with a real LightningChannel as signer); the other party is the peer: a   *)
+(* closer that may choose everything BOLT 2 (option_simple_close) leaves to  *)
+(* it, and a closee that verifies and counter-signs exactly the transaction  *)
+(* a closing_complete describes.  A message is [kind ("cc" closing_complete / *)
+(* "sig" closing_sig), fee, lt, cs, es, F]: fee, lock time, closer/closee    *)
+(* delivery script (index), set of signature fields                          *)
+(*   "closer" = closer_output_only, "closee" = closee_output_only,           *)
+(*   "both"   = closer_and_closee_outputs.                                   *)
+(* rb = [on, node, envh (Environment.BlockHeight of the node; 0 in           *)
+(*       production), ht (current height), sd[p][i] (network dust limit of   *)
+(*       p's i-th delivery script, lnwallet.DustLimitForSize),               *)
+(*       inq (messages of the peer not yet processed by the node, in the     *)
+(*       order sent: the transport is ordered),                              *)
+(*       own (the node's closing_complete awaiting the peer's closing_sig),  *)
+(*       answered (the peer has sent its closing_sig for `own`),             *)
+(*       dead (the node's machine stopped on an error), stuck (the peer      *)
+(*       refused the node's offer: LocalOfferSent waits for ever),           *)
+(*       what/res/sel/csf/ans: the last step - who answered what, outcome,   *)
+(*       field selected, field of the closing_sig, message answered]         *)
+
+Fields == {"closer", "closee", "both"}
+RbStart(node, envh, ht, sd) == [RbIdle EXCEPT !.on = TRUE, !.node = node, !.envh = envh, !.ht = ht, !.sd = sd]
+
+\* --- written from the property / BOLT 2+3, party-independent ---
+
+\* party q gets an output in a close at `fee` paid by closer c: its due amount reaches its own dust limit
+Has(q, fee, c) == Due(q, fee, c) >= OwnDust(q)
+
+\* the closing transaction the closing_complete of closer c describes in signature field f
+Desc(c, fee, f, lt) ==
+  LET e  == Other(c)
+      hc == f \in {"closer", "both"}
+      he == f \in {"closee", "both"} IN
+  [res |-> "ok", has |-> (c :> hc @@ e :> he),
+   val |-> (c :> (IF hc THEN Due(c, fee, c) ELSE 0) @@ e :> (IF he THEN Due(e, fee, c) ELSE 0)),
+   fee |-> fee, payer |-> c, lt |-> lt]
+
+\* the signature field an honest closer fills (BOLT 2, sender of closing_complete): closee dust ->
+\* closer_output_only; own output dust -> closee_output_only; otherwise closer_and_closee_outputs (BOLT also asks
+\* for closer_output_only next to it - a signature for a second transaction, which lnd's own closer never sends
+\* and the closee ignores unless its output is dust: not modelled).  A set of sets: the choices of F.
+HonestFields(c, fee) ==
+  LET e == Other(c) IN
+  IF Has(c, fee, c) /\ Has(e, fee, c) THEN {{"both"}}
+  ELSE IF Has(c, fee, c) THEN {{"closer"}}
+  ELSE IF Has(e, fee, c) THEN {{"closee"}}
+  ELSE {}                                    \* MUST set the fee so that at least one output is not dust
+FieldOf(F) == IF "both" \in F THEN "both" ELSE CHOOSE f \in F : TRUE
+
+\* BOLT 2, receiver of closing_complete: "select a signature for validation" given its own dust status
+Select(localDust, F) == IF localDust THEN "closer" ELSE IF "both" \in F THEN "both" ELSE "closee"
+
+\* lock times an honest closer may put on its transaction: anything that is final at the current height
+LockTimes == {x \in {0, 1, rb.ht - 1, rb.ht} : x >= 0 /\ x <= rb.ht}
+
+\* --- the peer as closer ---
+\* closing_complete of the peer: fee (at most its funds), lock time, delivery script k (kept or new), fields F.
+\* Up to MaxInFlight offers may be sent before the node answered.
+PeerOffer(fee, lt, k, F, MaxInFlight) ==
+  LET e == rb.node  c == Other(rb.node) IN
+  /\ rb.on /\ ~rb.dead /\ Len(rb.inq) < MaxInFlight
+  /\ fee >= 1 /\ fee <= Gross(c)
+  /\ lt \in LockTimes
+  /\ F \in HonestFields(c, fee)
+  /\ rb' = [rb EXCEPT !.inq = Append(@, [kind |-> "cc", fee |-> fee, lt |-> lt, cs |-> k, es |-> ch.scr[c][e], F |-> F]),
+                      !.what = "POffer", !.res = "ok", !.sel = "", !.csf = "", !.ans = NoMsg]
+  /\ ch' = [ch EXCEPT !.scr[c][c] = k]
+  /\ tx' = [p \in P |-> NoTx]
+
+\* --- the node as closee: ClosingNegotiation.ProcessEvent + RemoteCloseStart.ProcessEvent(OfferReceivedEvent) ---
+\* lnd labels ITS OWN output dust by the settled balance against the network dust limit of the script
+\* (CloseChannelTerms.LocalAmtIsDust), while the transaction builder trims by the channel's dust limits on the
+\* balances after the commit-fee credit: where the two disagree the node refuses ("nosig": the field it looks
+\* for is missing; "badsig": the closer's signature is for another transaction) - named deviation (O4).
+NodeLocalDust  == Sat(ch.view[rb.node].our) < rb.sd[rb.node][ch.scr[rb.node][rb.node] + 1]
+NodeRemoteDust == Sat(ch.view[rb.node].their) < rb.sd[Other(rb.node)][ch.scr[rb.node][Other(rb.node)] + 1]
+
+NodeReply ==
+  /\ rb.on /\ ~rb.dead /\ rb.inq # <<>> /\ Head(rb.inq).kind = "cc"
+  /\ LET e   == rb.node
+         c   == Other(rb.node)
+         m   == Head(rb.inq)
+         sel == Select(NodeLocalDust, m.F)
+         t   == [BuildTx(e, m.fee, c) EXCEPT !.lt = m.lt]      \* WithCustomLockTime(msg.LockTime), payer remote
+         why == IF m.es # ch.scr[e][e] THEN "wrongscript"      \* updateAndValidateCloseTerms
+                ELSE IF Sat(ch.view[e].their) < m.fee THEN "cantpay"          \* RemoteCanPayFees
+                ELSE IF sel \notin m.F THEN "nosig"                             \* validateSigFields
+                ELSE IF t.res # "ok" THEN t.res                                 \* CreateCloseProposal
+                ELSE IF t # Desc(c, m.fee, sel, m.lt) THEN "badsig"             \* CompleteCooperativeClose
+                ELSE "ok"
+     IN /\ ch' = IF why = "wrongscript" THEN ch ELSE [ch EXCEPT !.scr[e][c] = m.cs]
+        \* accepted: the node broadcasts t and answers closing_sig, with which the peer completes the transaction
+        \* it described
+        /\ tx' = IF why = "ok" THEN (e :> t @@ c :> Desc(c, m.fee, sel, m.lt))
+                 ELSE (e :> Refusal(why, m.fee, c) @@ c :> NoTx)
+        /\ rb' = [rb EXCEPT !.inq = Tail(@), !.dead = (why # "ok"),
+                            !.what = "NReply", !.res = why, !.ans = m,
+                            !.sel = IF why \in {"ok", "badsig"} THEN sel ELSE "",
+                            \* createClosingSigMessage: closer_output_only if noClosee, else closer_and_closee_outputs
+                            \* (also when closee_output_only was selected: named deviation)
+                            !.csf = IF why # "ok" THEN "" ELSE IF NodeLocalDust THEN "closer" ELSE "both"]
+
+\* --- the node as closer: LocalCloseStart.ProcessEvent(SendOfferEvent) ---
+NodeOffer(fee) ==
+  /\ rb.on /\ ~rb.dead /\ ~rb.stuck /\ rb.own = NoMsg /\ fee >= 1
+  /\ LET e == rb.node
+         c == Other(rb.node)
+         v == ch.view[e]
+         t == BuildTx(e, fee, e)                                   \* no lock time option: 0
+         closeBalance == CoopCloseBalance(ch.opener = e, fee, Sat(v.our), Sat(v.their), v.cfee, TRUE).our
+         f == IF NodeRemoteDust THEN "closer"                      \* remoteTxOut == nil
+              ELSE IF closeBalance < rb.sd[e][ch.scr[e][e] + 1] THEN "closee"
+              ELSE "both"
+         why == IF Sat(v.our) < fee THEN "cantpay"                 \* LocalCanPayFees: CloseErr, nothing sent
+                ELSE t.res
+     IN /\ tx' = IF why = "ok" THEN (e :> t @@ c :> NoTx) ELSE (e :> Refusal(why, fee, e) @@ c :> NoTx)
+        /\ rb' = [rb EXCEPT !.own = IF why = "ok"
+                                      THEN [kind |-> "cc", fee |-> fee, lt |-> rb.envh, cs |-> ch.scr[e][e], es |-> ch.scr[e][c], F |-> {f}]
+                                      ELSE NoMsg,
+                            !.dead = (why \notin {"ok", "cantpay"}),
+                            !.what = "NOffer", !.res = why, !.sel = "", !.csf = "", !.ans = NoMsg]
+        /\ UNCHANGED ch
+
+\* --- the peer as closee ---
+\* The honest closee selects by ITS dust status (owner's rule), builds the transaction the message describes and
+\* verifies the closer's signature on it; the node signed BuildTx at lock time 0 whatever it announced.
+\* Refusals: "stale" (the message names a script the peer has replaced meanwhile), "nosig"/"badsig" where the
+\* node's labels disagree with the owner's dust rule (O4) or where it announces a lock time it did not sign
+\* (envh # 0, O3: latent, production leaves Environment.BlockHeight at 0).  Accepted: the peer completes the
+\* described transaction and sends closing_sig (echoing fee, lock time and scripts) behind whatever it sent before.
+PeerReply ==
+  /\ rb.on /\ ~rb.dead /\ ~rb.stuck /\ rb.own # NoMsg /\ ~rb.answered
+  /\ LET e   == rb.node
+         c   == Other(rb.node)
+         m   == rb.own
+         t   == BuildTx(e, m.fee, e)
+         sel == Select(~Has(c, m.fee, e), m.F)
+         why == IF m.es # ch.scr[c][c] THEN "stale"
+                ELSE IF sel \notin m.F THEN "nosig"
+                ELSE IF Desc(e, m.fee, sel, m.lt) # t THEN "badsig"
+                ELSE "ok"
+     IN /\ tx' = IF why = "ok" THEN (e :> NoTx @@ c :> Desc(e, m.fee, sel, m.lt))
+                 ELSE (e :> NoTx @@ c :> Refusal(why, m.fee, e))
+        /\ rb' = [rb EXCEPT !.inq = IF why = "ok" THEN Append(@, [m EXCEPT !.kind = "sig", !.F = {sel}]) ELSE @,
+                            !.answered = (why = "ok"), !.stuck = (why # "ok"),
+                            !.what = "PReply", !.res = why, !.ans = m,
+                            !.sel = IF why \in {"ok", "badsig"} THEN sel ELSE "",
+                            !.csf = IF why = "ok" THEN sel ELSE ""]
+        /\ UNCHANGED ch
+
+\* --- the node completing its round: ClosingNegotiation + LocalOfferSent.ProcessEvent(LocalSigReceived) ---
+\* LocalOfferSent keeps the fee and its own signature but NOT the scripts it signed for: it rebuilds the transaction
+\* from the close terms as they are NOW (shared by pointer with the closee half, which adopts the peer's new script
+\* with every closing_complete).  Because the peer's messages arrive in the order sent, the terms at this point name
+\* the script the peer had when it signed (= the one the offer named, or it would have refused as stale).
+NodeSig ==
+  /\ rb.on /\ ~rb.dead /\ rb.inq # <<>> /\ Head(rb.inq).kind = "sig"
+  /\ LET e   == rb.node
+         c   == Other(rb.node)
+         m   == Head(rb.inq)
+         sel == FieldOf(m.F)
+         t   == BuildTx(e, rb.own.fee, e)                          \* l.ProposedFee, no lock time option: 0
+         why == IF m.cs # ch.scr[e][e] THEN "wrongscript"          \* updateAndValidateCloseTerms
+                ELSE IF t.res # "ok" THEN t.res
+                ELSE IF ch.scr[e][c] # m.es \/ t # Desc(e, m.fee, sel, m.lt) THEN "badsig"   \* CompleteCooperativeClose
+                ELSE "ok"
+     IN /\ tx' = (e :> (IF why = "ok" THEN t ELSE Refusal(why, m.fee, e)) @@ c :> Desc(e, m.fee, sel, m.lt))
+        /\ rb' = [rb EXCEPT !.inq = Tail(@), !.own = NoMsg, !.answered = FALSE, !.dead = (why # "ok"),
+                            !.what = "NSig", !.res = why, !.ans = m, !.sel = sel, !.csf = ""]
+        /\ UNCHANGED ch
+
+\* --- what is judged ---
+\* the node's labels agree with the owner's dust rule for a close at `fee` paid by y
+LabelsAgree(fee, y) ==
+  LET e == rb.node  c == Other(rb.node) IN
+  IF y = c THEN NodeLocalDust = ~Has(e, fee, c)
+  ELSE /\ NodeRemoteDust = ~Has(c, fee, e)
+       /\ (~NodeRemoteDust => ((Due(e, fee, e) < rb.sd[e][ch.scr[e][e] + 1]) = ~Has(e, fee, e)))
+
+\* a round is refused only in the named cases (the refusals of BuildTx are judged by RefusalCases)
+NamedRefusals ==
+  /\ (rb.what = "NReply" /\ rb.res \in {"nosig", "badsig"}) => ~LabelsAgree(rb.ans.fee, Other(rb.node))
+  /\ (rb.what = "NReply") => rb.res # "wrongscript"             \* the honest closer names the script it was given
+  /\ (rb.what = "PReply" /\ rb.res \in {"nosig", "badsig"}) => (~LabelsAgree(rb.ans.fee, rb.node) \/ rb.envh # 0)
+  /\ (rb.what = "NSig") => rb.res = "ok"       \* the node always completes a round the honest closee signed
+\* an accepted round: both hold the transaction the closing_complete described, lock time included
+ExactReply ==
+  (rb.what \in {"NReply", "NSig"} /\ rb.res = "ok") =>
+     LET y == IF rb.what = "NReply" THEN Other(rb.node) ELSE rb.node IN
+     /\ tx["A"] = tx["B"]
+     /\ tx[rb.node] = Desc(y, rb.ans.fee, rb.sel, rb.ans.lt)
+     /\ rb.sel \in rb.ans.F
+     /\ \A q \in P : tx[rb.node].has[q] <=> Has(q, rb.ans.fee, y)
+PeerInvariants == Synced => (NamedRefusals /\ ExactReply)
 
 \* --- negotiation ---
 Bounded == rounds <= MaxRounds
